@@ -932,6 +932,22 @@ static int32_t tls13ParseHandshakeMessage(ssl_t *ssl,
         goto exit;
     }
 
+    /* The read keys change behind ServerHello, EndOfEarlyData and Finished
+       (and behind ClientHello when 0-RTT data follows): RFC 8446, 5.1
+       requires these messages to end their record, so that nothing after
+       them is read under the keys (or the absence of keys) that were in
+       force before them. */
+    if ((type == SSL_HS_CLIENT_HELLO || type == SSL_HS_SERVER_HELLO ||
+         type == SSL_HS_EOED || type == SSL_HS_FINISHED) &&
+        *bufStart != bufEnd)
+    {
+        psTraceErrr("Handshake message before a key change does not end " \
+                "its record\n");
+        ssl->err = SSL_ALERT_UNEXPECTED_MESSAGE;
+        rc = MATRIXSSL_ERROR;
+        goto exit;
+    }
+
     switch(type)
     {
 # ifdef USE_SERVER_SIDE_SSL
